@@ -113,7 +113,7 @@ let c13 verbose hex =
     if verbose then begin
       let rs = match r with
         | M.MPanic -> "P" | M.MOk None -> "N" | M.MOk (Some sp) -> sp_str sp in
-      Buffer.add_string vb (Printf.sprintf "%d-%d@%d(%s,%s)=%s," a e f (arg_s x) (arg_s y) rs)
+      Buffer.add_string vb (Printf.sprintf "%d-%d@%d(%s_%s)=%s," a e f (arg_s x) (arg_s y) rs)
     end else begin
       match r with
       | M.MPanic -> h := feed !h 1
